@@ -133,4 +133,22 @@ def blePut : List (Key × Perm × Bool) → List Key → Result → List Key × 
     else if !accepted then (n, r, true)
     else blePut rest (if p.readable then n ++ [k] else n) r
 
+/-! ## BLE read: one request per characteristic; what the accessory refuses is logged and skipped
+
+`BlePairing._get_characteristics_while_connected`: a `PDUStatusError` of any status (and a value that does not
+decode) makes the loop `continue`; only values reach the result. -/
+
+/-- the accessory's answer to one characteristic read -/
+inductive BleAnswer
+  | value (v : Nat)          -- status 0; `v` names the decoded value
+  | refused (status : Nat)   -- PDU status 1..6
+  | undecodable              -- status 0 but the bytes do not decode in the characteristic's format
+  deriving DecidableEq, Repr
+
+/-- the result dictionary: requested keys with their values, in fetch order -/
+def bleGet : List (Key × BleAnswer) → List (Key × Nat)
+  | [] => []
+  | (k, .value v) :: rest => (k, v) :: bleGet rest
+  | (_, _) :: rest => bleGet rest
+
 end HapVerif.CharList
